@@ -522,7 +522,9 @@ func TestCheck(t *testing.T) {
 	// with a fraction or exponent: an integral one may be accepted with its exact value, anything else must be refused).
 	r.Phase("D3: JSON object form {value, unit}: boundary integers and fraction/exponent literals x units", func() {
 		lits := []string{"0", "1", "1023", "1024", "18446744073709551615", "18446744073709551616", "18014398509481983", "18014398509481984", "18014398509481985", "9007199254740993", "9007199254740993.0", "9007199254740992.0",
-			"1.0", "1.5", "1e3", "1E3", "10e-1", "1.00000000000000000001", "1023.99999999999999999", "0.999999999999999999999", "18446744073709551615.0", "1.8446744073709551615e19", "1.8446744073709551616e19", "-0", "-1", "1e30", "0e999", "16384", "17.0e0"}
+			"1.0", "1.5", "1e3", "1E3", "10e-1", "1.00000000000000000001", "1023.99999999999999999", "0.999999999999999999999", "18446744073709551615.0", "1.8446744073709551615e19", "1.8446744073709551616e19", "-0", "-1", "1e30", "0e999", "16384", "17.0e0",
+			// a value member that is a JSON string is wrongly typed, whatever the string holds
+			`"1"`, `"1.5"`, `"12abc"`, `"7e30"`, `""`, `"0"`, `" 3"`, `"18446744073709551616"`}
 		r.Parallel(int64(len(lits)), 1, func(w *vkit.W, lo, hi int64) {
 			for i := lo; i < hi; i++ {
 				lit := lits[i]
